@@ -47,6 +47,10 @@ theorem c01_errnorm_spec_radau {n : Nat} (cont scal : Vector K n) :
     Gen.Radau.errnorm (cont := cont) (scal := scal)
       = SqrtPow.sqrt (errSum (fun i => cont[i]) (fun i => scal[i]) / (n : K)) := radau_errnorm_spec cont scal
 
+theorem c01_errnorm_spec_radau_refined {n : Nat} (cont scal : Vector K n) :
+    Gen.Radau.errnorm2 (cont := cont) (scal := scal)
+      = SqrtPow.sqrt (errSum (fun i => cont[i]) (fun i => scal[i]) / (n : K)) := radau_errnorm2_spec cont scal
+
 theorem c01_radau_tolerances {n : Nat} (atol rtol y : Vector K n) (i : Fin n) :
     let t := Gen.Radau.tolAdjust (atol := atol) (rtol := rtol) (expm := Gen.Radau.expm)
     (Gen.Radau.scal0 (atol := t.atol) (rtol := t.rtol) (y := y)).scal[i]
